@@ -108,6 +108,7 @@ impl Stats
         }
         self.inc("evaluations");
         self.inc(if inv.is_build { "invocations.build" } else { "invocations.clean" });
+        self.add("sim.clock_ticks", inv.res.clock_ticks);
         self.add("sim.steps", inv.res.steps as u64);
         self.add("sim.decisions", inv.res.decisions as u64);
         self.add("sim.events", inv.res.events.len() as u64);
@@ -395,6 +396,7 @@ pub fn hist_run(prop : &str, case : &Case, mut stats : Option<&mut Stats>) -> Ve
             "C07" =>
             {
                 vs.extend(hist::oracle_c07(&inv));
+                if let Some(s) = stats.as_deref_mut() { s.add("probe.entered_cache_under_a_name_that_is_not_its_hash", hist::probe_c07_staging(&inv) as u64); }
                 let entered : Vec<u64> = inv.res.events.iter().filter_map(|e| match &e.kind
                 {
                     Ev::Fs{ op : FsOp::Rename, origin : Origin::Ruler, path2 : Some(to), ok : true, replaced, .. } if hist::in_cache(to) =>
@@ -420,6 +422,7 @@ pub fn hist_run(prop : &str, case : &Case, mut stats : Option<&mut Stats>) -> Ve
             "C08" =>
             {
                 vs.extend(hist::oracle_c08(&inv, &runner.ever_targets));
+                if let Some(s) = stats.as_deref_mut() { s.add("probe.ruler_replaced_different_bytes", hist::probe_c08_overwrites(&inv) as u64); }
                 let displaced = inv.res.events.iter().filter(|e| match &e.kind
                 {
                     Ev::Fs{ op : FsOp::Rename, origin : Origin::Ruler, path, path2 : Some(to), ok : true, .. } => !hist::in_ruler_dir(path) && hist::in_cache(to),
